@@ -540,21 +540,21 @@ macro_rules! thread_harness {
 // Every obligation below checks the C05 assertions (closure runs once, join waits for the exit and returns the value / None,
 // failed spawn returns an error) and the C06 assertions (stack, TLS block, join state released exactly once, never
 // under a party that can still touch them, nothing left behind) together; they are listed under both properties.
-// @ob C05 quick thread_u32 fns=thread::spawn,JoinHandle::join,JoinHandle::drop,wait_until_finished,Tsm::init,Tsm::dealloc,Tsm::layout_thread_shared_memory,on_panic,start_fn,onwed_split_fn_once,futex_wait_fast bound="one thread; result type u32 (value symbolic); closure returns or panics; handle joined or dropped; the 3 orders that do not commute; no spurious futex return; no system-call failure" timeout=2400 mem=16 stubs="__clone (global_asm trampoline) -> clone_model; core::fmt::write; alloc::alloc::alloc/dealloc_nonnull -> same allocation plus bookkeeping"
+// @ob C05 quick thread_u32 fns=thread::spawn,JoinHandle::join,JoinHandle::drop,wait_until_finished,Tsm::init,Tsm::dealloc,Tsm::layout_thread_shared_memory,on_panic,start_fn,onwed_split_fn_once,futex_wait_fast bound="one thread; result type u32 (value symbolic); closure returns or panics; handle joined or dropped; the 3 orders that do not commute; no spurious futex return; no system-call failure" timeout=2400 mem=16 replay=none stubs="__clone (global_asm trampoline) -> clone_model; core::fmt::write; alloc::alloc::alloc/dealloc_nonnull -> same allocation plus bookkeeping"
 thread_harness!(thread_u32, u32, false, 0, true, covers_plain, 4);
-// @ob C06 quick thread_u32 fns=thread::spawn,JoinHandle::join,JoinHandle::drop,on_panic,Tsm::dealloc bound="as C05 thread_u32: every order of {returns, panics} x {joined, dropped before / while / after the thread finishes} for one thread" timeout=2400 mem=16
-// @ob C05 quick thread_u32_spurious fns=wait_until_finished,futex_wait_fast,JoinHandle::join,JoinHandle::drop bound="as thread_u32 without panic, plus at most one spurious return (0 or EINTR) of a FUTEX_WAIT that would have parked" timeout=2400 mem=16
+// @ob C06 quick thread_u32 fns=thread::spawn,JoinHandle::join,JoinHandle::drop,on_panic,Tsm::dealloc bound="as C05 thread_u32: every order of {returns, panics} x {joined, dropped before / while / after the thread finishes} for one thread" timeout=2400 mem=16 replay=none
+// @ob C05 quick thread_u32_spurious fns=wait_until_finished,futex_wait_fast,JoinHandle::join,JoinHandle::drop bound="as thread_u32 without panic, plus at most one spurious return (0 or EINTR) of a FUTEX_WAIT that would have parked" timeout=2400 mem=16 replay=none
 thread_harness!(thread_u32_spurious, u32, false, 1, false, covers_nopanic, 4);
-// @ob C06 quick thread_u32_spurious fns=wait_until_finished,JoinHandle::drop bound="as C05 thread_u32_spurious" timeout=2400 mem=16
-// @ob C05 quick thread_u32_faults fns=thread::spawn,drop_boxed_fn_once bound="as thread_u32 without panic, and the stack mmap or the clone fails with an arbitrary errno" timeout=2400 mem=16
+// @ob C06 quick thread_u32_spurious fns=wait_until_finished,JoinHandle::drop bound="as C05 thread_u32_spurious" timeout=2400 mem=16 replay=none
+// @ob C05 quick thread_u32_faults fns=thread::spawn,drop_boxed_fn_once bound="as thread_u32 without panic, and the stack mmap or the clone fails with an arbitrary errno" timeout=2400 mem=16 replay=none
 thread_harness!(thread_u32_faults, u32, true, 0, false, covers_faults, 4);
-// @ob C06 quick thread_u32_faults fns=thread::spawn bound="as C05 thread_u32_faults: a failed spawn leaves no mapping and no allocation behind" timeout=2400 mem=16
+// @ob C06 quick thread_u32_faults fns=thread::spawn bound="as C05 thread_u32_faults: a failed spawn leaves no mapping and no allocation behind" timeout=2400 mem=16 replay=none
 // result layouts: zero-sized, over-aligned (64), 16-byte
-// @ob C05 thorough thread_unit fns=thread::spawn,JoinHandle::join,Tsm::value_offset bound="as thread_u32, result type () (zero-sized)" timeout=3000 mem=16
+// @ob C05 thorough thread_unit fns=thread::spawn,JoinHandle::join,Tsm::value_offset bound="as thread_u32, result type () (zero-sized)" timeout=3000 mem=16 replay=none
 thread_harness!(thread_unit, (), false, 0, true, covers_plain, 4);
-// @ob C05 thorough thread_over_aligned fns=thread::spawn,JoinHandle::join,Tsm::value_offset,Tsm::layout_thread_shared_memory bound="as thread_u32, result type #[repr(align(64))] struct (over-aligned)" timeout=3000 mem=16
+// @ob C05 thorough thread_over_aligned fns=thread::spawn,JoinHandle::join,Tsm::value_offset,Tsm::layout_thread_shared_memory bound="as thread_u32, result type #[repr(align(64))] struct (over-aligned)" timeout=3000 mem=16 replay=none
 thread_harness!(thread_over_aligned, Over, false, 0, true, covers_plain, 4);
-// @ob C05 thorough thread_u128 fns=thread::spawn,JoinHandle::join bound="as thread_u32, result type u128" timeout=3000 mem=16
+// @ob C05 thorough thread_u128 fns=thread::spawn,JoinHandle::join bound="as thread_u32, result type u128" timeout=3000 mem=16 replay=none
 thread_harness!(thread_u128, u128, false, 0, true, covers_plain, 4);
-// @ob C05 thorough thread_u32_spurious2 fns=wait_until_finished,futex_wait_fast bound="as thread_u32 with panic, plus at most two spurious futex returns" timeout=3400 mem=20
+// @ob C05 thorough thread_u32_spurious2 fns=wait_until_finished,futex_wait_fast bound="as thread_u32 with panic, plus at most two spurious futex returns" timeout=3400 mem=20 replay=none
 thread_harness!(thread_u32_spurious2, u32, false, 2, true, covers_plain, 6);
